@@ -339,8 +339,10 @@ where
                 crate::verif::count(&crate::verif::INVALIDATED);
                 return affected_error(input);
             }
-            // TODO: maybe dynamic affection range
-            let affected_range = this_range.start..(this_range.end + 1);
+            // How a node ends is decided by the first token behind it, that is not a comment,
+            // because all parsers skip comments.
+            let look_ahead = 1 + input.comments_at(this_range.len());
+            let affected_range = this_range.start..(this_range.end + look_ahead);
             // A node can only be reused as it is,
             // if its position relative to the enclosing reference did not change.
             let relative_start = input.location_offset() - input.reference_pos;
